@@ -1,4 +1,5 @@
 import Spake2Verif.Proofs.PropAuxA
+import Spake2Verif.Proofs.ProtoShapeTie
 /-!
 # C10 — The persisted state format is stable across library versions
 
@@ -268,5 +269,18 @@ example :
         "d6a0facb8d648bf4375fc49aff52ef38cf442087e539a8ea26667b31be82539b" ++
         "\", \"side\": \"S\", \"idS\": \"07\", \"password\": \"01\", \"xy_scalar\": \"04\"}")) := by
   decide +kernel
+
+/-- Tie A: the member names, their order and the field each value is taken from are those of the
+*source* -- `_serialize_to_dict` as read off the code by `tools/py2lean.py` (`dict_keys_*`), and
+`hashed_params` hashes the translated pieces -/
+theorem state_dictionary_is_the_source {G : Group} (i : Inst G) :
+    (i.side ≠ .S → i.toDict = ProtoShapeTie.toDictVia i Spake2Model.Gen.Proto.dict_keys_asym) ∧
+    (i.side = .S → i.toDict = ProtoShapeTie.toDictVia i Spake2Model.Gen.Proto.dict_keys_sym) ∧
+    i.hashParams = (do
+      let a ← G.arb []
+      let s ← G.scalarEnc (G.p2s [])
+      pure (hexlify (Sha.sha256 (ProtoShapeTie.hashPieces i.side (G.enc a) s
+        (G.enc i.params.M) (G.enc i.params.N) (G.enc i.params.S)).flatten))) :=
+  ⟨ProtoShapeTie.toDict_tie_asym i, ProtoShapeTie.toDict_tie_sym i, (ProtoShapeTie.hashParams_tie i).1⟩
 
 end Spake2Verif.C10
